@@ -231,3 +231,28 @@ def lookalike_twins(t):
         if t2 != t and t2 not in out:
             out.append(t2)
     return out
+
+
+INT_COLS = ("i1", "i2")
+
+
+def literalised(term, rows, seed, max_rows=2):
+    """Metamorphic companions of a case: [(row index, term')] where term' is the filter with every reference
+    to an Int column replaced by that row's own value written as an integer literal. For that row the filter
+    and its companion denote the same thing whatever the reading of the operators (also where the reference
+    evaluator leaves a row undecided: negative mod, inexact division), so a backend must treat the row alike."""
+    import random
+    cols = sorted({x[1] for x in walk(term) if x[0] == "id" and not x[2] and x[1] in INT_COLS})
+    if not cols:
+        return []
+    idx = [i for i, row in enumerate(rows) if all(row.get(c) is not None and abs(row[c]) < 2 ** 62 for c in cols)]
+    random.Random(seed).shuffle(idx)
+    out = []
+    for i in idx[:max_rows]:
+        def sub(t, i=i):
+            if t[0] == "id" and not t[2] and t[1] in cols:
+                return ("lit", "int", str(rows[i][t[1]]))
+            cs = children(t)
+            return rebuild(t, [sub(c) for c in cs]) if cs else t
+        out.append((i, sub(term)))
+    return out
